@@ -150,6 +150,42 @@ fn check(rep: &mut Report, w: &W, text: &str, op: &OpSpec, refs: &[R]) {
             (Err(m), _) => rep.fail("panic", &format!("{}/oracle-panic", op.sig()), ctx.clone(), "the relation test to answer", &m),
         }
     }
+    // the other entry points give the same answer as the resource-level search: the selection itself (bound when it is a
+    // known selection, unbound otherwise), the set of selections, the annotation on the reference, and a RELATION
+    // constraint in a query with the reference bound to the variable
+    if let Ok(g) = &got {
+        let store = &w.store;
+        let via: Result<Vec<(&'static str, Vec<R>)>, String> = guarded(std::panic::AssertUnwindSafe(|| {
+            let res = store.resource("r").unwrap();
+            let mut out: Vec<(&'static str, Vec<R>)> = vec![];
+            let sels: Vec<ResultTextSelection> = refs.iter().map(|r| res.textselection(&Offset::simple(r.0, r.1)).expect("ref")).collect();
+            if refs.len() == 1 {
+                out.push(("ResultTextSelection::related_text", sels[0].related_text(op.to_op()).map(|t| (t.begin(), t.end())).collect()));
+                if let Some(a) = sels[0].annotations().next() {
+                    out.push(("ResultItem<Annotation>::related_text", a.related_text(op.to_op()).map(|t| (t.begin(), t.end())).collect()));
+                }
+                let q = format!("SELECT TEXT ?t WHERE RELATION ?x {};", op.to_op().as_str());
+                if !op.all && !op.neg && op.limit.is_none() && !(matches!(op.k, K::Precedes | K::Succeeds) && !op.ws) {
+                    if let Ok(mut query) = Query::try_from(q.as_str()) {
+                        query.bind_textvar("x", &sels[0]);
+                        if let Ok(it) = store.query(query) {
+                            let mut v: Vec<R> = it.filter_map(|row| row.iter().next().and_then(|x| if let QueryResultItem::TextSelection(t) = x { Some((t.begin(), t.end())) } else { None })).collect();
+                            v.sort(); v.dedup();
+                            let mut gg = g.clone(); gg.sort(); gg.dedup();
+                            if v != gg { out.push(("RELATION constraint in a query (as a set)", v)); }
+                        }
+                    }
+                }
+            }
+            let set: ResultTextSelectionSet = sels.iter().cloned().collect();
+            out.push(("ResultTextSelectionSet::related_text", set.related_text(op.to_op()).map(|t| (t.begin(), t.end())).collect()));
+            out
+        }));
+        match via {
+            Ok(v) => for (how, r) in v { if how.starts_with("RELATION") || r != *g { rep.fail("oracle", &format!("{}/entry-points-differ/{}", op.sig(), how.split(':').next().unwrap_or(how).replace(' ', "-")), ctx.clone(), &format!("resource.related_text: {}", got_s), &format!("{}: {}", how, fmt_ranges(&r))); } },
+            Err(m) => rep.fail("panic", &format!("{}/entry-point-panics", op.sig()), ctx.clone(), &got_s, &m),
+        }
+    }
     rep.case(if nontrivial { Some(&key) } else { None });
     rep.model_case(vec![line], vec![got_s], &format!("{}", op.sig()));
 }
